@@ -300,6 +300,15 @@ pub fn check_file(c: &FileCase) -> Verdict {
     v
 }
 
+fn gen_uniq(mut v: Vec<Rec>) -> Vec<Rec> {
+    for (i, r) in v.iter_mut().enumerate() {
+        if i >= 3 && (r.id == "s0" || r.id == "s1" || r.id == "big") {
+            r.id.push_str("_x");
+        }
+    }
+    v
+}
+
 pub struct Files;
 impl Leg for Files {
     type Case = FileCase;
@@ -317,7 +326,26 @@ impl Leg for Files {
             prop_oneof![8 => Just(1usize), 1 => 8usize..=40],
             io::stale_strategy(),
         )
-            .prop_map(|((recs, cont), s, threads, mem, poison, copies, stale)| FileCase { recs, cont, s, threads, mem, poison, copies, stale })
+            .prop_map(|((recs, cont), s, threads, mem, poison, copies, stale)| {
+                // a fifteenth of the cases: two short records, then one of 27 000 - 45 000 bases (more than a megabyte of
+                // text in one batch), then the generated ones; batch limit = the first record's length
+                let h = crate::util::fnv64(format!("{}:{}:{}", recs.len(), s, threads).as_bytes());
+                let (mut recs, mut mem, mut copies) = (recs, mem, copies);
+                if h % 15 == 4 && poison.is_none() {
+                    let mut x = h | 1;
+                    let mut rnd = |len: usize| -> Vec<u8> { (0..len).map(|_| { x = crate::util::splitmix(x); b"ACGT"[(x >> 33) as usize & 3] }).collect() };
+                    let mut v = vec![
+                        Rec { id: "s0".into(), desc: None, seq: crate::util::Bytes(rnd(50)) },
+                        Rec { id: "s1".into(), desc: None, seq: crate::util::Bytes(rnd(40)) },
+                        Rec { id: "big".into(), desc: None, seq: crate::util::Bytes(rnd(27_000 + (h >> 8) as usize % 18_000)) },
+                    ];
+                    v.extend(recs.into_iter().take(6));
+                    recs = gen_uniq(v);
+                    mem = Mem::OneRecord;
+                    copies = 1;
+                }
+                FileCase { recs, cont, s, threads, mem, poison, copies, stale }
+            })
             .boxed()
     }
     fn check(c: &FileCase) -> Verdict {
